@@ -93,7 +93,10 @@ func sweepTargets(b []byte) []sweepTarget {
 
 // sweepBudget scales the sweep: lines per target, truncation offsets per target, scalars per
 // target whose sub-ranges are deleted.
-type sweepBudget struct{ lines, truncs, scalars, eolLines, jsonNodes, jsonRepl int }
+type sweepBudget struct{ lines, truncs, scalars, eolLines, jsonNodes, jsonRepl, affixDocMax int }
+
+// sweepAffixes are put at the start and at the end of scalars.
+var sweepAffixes = []string{"\\", "\"", "'", "$", "${", "#", " ", "%", "\x00"}
 
 // sweepMuts lists the mutation sequences of one target.
 func sweepMuts(body []byte, bud sweepBudget) [][]Mut {
@@ -190,6 +193,18 @@ func sweepMuts(body []byte, bud sweepBudget) [][]Mut {
 			out = append(out, []Mut{{Op: "subdel", A: i, B: r}})
 		}
 	}
+	// escape, quote and expansion characters at the start and the end of the same scalars
+	// (small documents only in the quick tier)
+	if len(body) <= bud.affixDocMax {
+		for i := range ss {
+			if !picked[i] {
+				continue
+			}
+			for _, a := range sweepAffixes {
+				out = append(out, []Mut{{Op: "strsuffix", A: i, S: a}}, []Mut{{Op: "strprefix", A: i, S: a}})
+			}
+		}
+	}
 	return out
 }
 
@@ -221,12 +236,13 @@ func TestC02_linesweep(t *testing.T) {
 	en := ev.NewEnumerator(t, col)
 	shard, shards := ev.Shard()
 	bud := sweepBudget{
-		lines:     ev.IntEnv("C02_SWEEP_LINES", ev.Scale(96, 1200)),
-		truncs:    ev.IntEnv("C02_SWEEP_TRUNCS", ev.Scale(48, 1024)),
-		scalars:   ev.IntEnv("C02_SWEEP_SCALARS", ev.Scale(5, 48)),
-		eolLines:  ev.Scale(3, 8),
-		jsonNodes: ev.IntEnv("C02_SWEEP_JSONNODES", ev.Scale(48, 600)),
-		jsonRepl:  ev.Scale(5, len(jsonReplacements)),
+		lines:       ev.IntEnv("C02_SWEEP_LINES", ev.Scale(96, 1200)),
+		truncs:      ev.IntEnv("C02_SWEEP_TRUNCS", ev.Scale(48, 1024)),
+		scalars:     ev.IntEnv("C02_SWEEP_SCALARS", ev.Scale(5, 48)),
+		eolLines:    ev.Scale(3, 8),
+		jsonNodes:   ev.IntEnv("C02_SWEEP_JSONNODES", ev.Scale(48, 600)),
+		jsonRepl:    ev.Scale(5, len(jsonReplacements)),
+		affixDocMax: ev.Scale(1024, 1<<20),
 	}
 	only := os.Getenv("C02_ONLY")
 	var idx, ran, targets, auxTargets int
